@@ -149,7 +149,7 @@ Fixpoint get_scheme (s : bytes) (acc : bytes) : option (bytes * bytes) :=
   end.
 
 (* bytes accepted in the modelled URL grammar *)
-Definition url_byte_ok (c : Z) : bool := (33 <=? c) && (c <=? 126) && negb (c =? 34) && negb (c =? 60)
+Definition url_byte_ok (c : Z) : bool := ((128 <=? c) && (c <=? 255)) || (33 <=? c) && (c <=? 126) && negb (c =? 34) && negb (c =? 60)
   && negb (c =? 62) && negb (c =? 92) && negb (c =? 94) && negb (c =? 96) && negb (c =? 123)
   && negb (c =? 124) && negb (c =? 125).
 
